@@ -2,10 +2,10 @@ SPECIFICATION Spec
 CONSTANTS
   Kind = "det"
   H = 15
-  Rates = {1, 2, 3, 4, 8}
+  Rates = {1, 2, 3, 8}
   Insts = {"A", "B"}
   Tables = {"small", "large", "extreme"}
-  ExtremeFrom = 4
+  ExtremeFrom = 3
 INVARIANTS TypeOK BoundIsThreshold KeepIsThreshold RateLE1KeepsAll InstancesAgree NestedAnswers
 PROPERTIES AskingIsPure ConfigureIsLocal
 ACTION_CONSTRAINT Dump
